@@ -84,6 +84,7 @@ def compute_linear_norm_sample(
             ret[layer.weight] = torch.sqrt(ga)
         if layer.bias is not None and layer.bias.requires_grad:
             ggT = torch.einsum("nik,njk->nij", backprops, backprops)
-            gg = torch.einsum("n...i,n...i->n", ggT, ggT).clamp(min=0)
+            # ||sum_t g_t||^2 = sum_{t,s} <g_t, g_s>: the sum of all entries of g g^T
+            gg = torch.einsum("nij->n", ggT).clamp(min=0)
             ret[layer.bias] = torch.sqrt(gg)
     return ret
